@@ -60,6 +60,7 @@ type xf struct {
 	curFn    string
 	virtPath string // import path the transformed module root gets
 	warn     []string
+	captured map[*types.Var]bool // locals of the current function that a `go func(){...}` literal captures
 }
 
 func main() {
@@ -97,6 +98,18 @@ func main() {
 	if err != nil {
 		fail(err)
 	}
+	goVersion = ""
+	if b, err := os.ReadFile(filepath.Join(*src, "go.mod")); err == nil {
+		for _, l := range strings.Split(string(b), "\n") {
+			f := strings.Fields(l)
+			if len(f) == 2 && f[0] == "go" {
+				v := strings.Split(f[1], ".")
+				if len(v) >= 2 {
+					goVersion = v[0] + "." + v[1]
+				}
+			}
+		}
+	}
 	replace := map[string]string{}
 	for _, p := range pkgs {
 		if len(p.Errors) > 0 {
@@ -119,6 +132,10 @@ func main() {
 			dst := filepath.Join(*out, rel, filepath.Base(name))
 			os.MkdirAll(filepath.Dir(dst), 0o755)
 			var buf bytes.Buffer
+			if goVersion != "" {
+				// the transformed files keep the language version of the repository's go.mod (loop variable semantics!)
+				fmt.Fprintf(&buf, "//go:build go%s\n\n", goVersion)
+			}
 			if err := format.Node(&buf, p.Fset, f); err != nil {
 				fail(fmt.Errorf("%s: %v", name, err))
 			}
@@ -185,6 +202,9 @@ func (x *xf) file(f *ast.File) {
 				}
 			}
 		}
+		x.captured = map[*types.Var]bool{}
+		x.findCaptured(d)
+		x.keepReassigned(d)
 		astutil.Apply(d, x.pre, x.post)
 	}
 	// imports: own module path -> virtual path
@@ -237,6 +257,113 @@ func (x *xf) file(f *ast.File) {
 		}
 	}
 }
+
+// findCaptured collects the local variables that function literals started with `go` refer to.
+func (x *xf) findCaptured(d ast.Decl) {
+	ast.Inspect(d, func(n ast.Node) bool {
+		gs, ok := n.(*ast.GoStmt)
+		if !ok {
+			return true
+		}
+		lit, ok := gs.Call.Fun.(*ast.FuncLit)
+		if !ok {
+			return true
+		}
+		ast.Inspect(lit.Body, func(m ast.Node) bool {
+			id, ok := m.(*ast.Ident)
+			if !ok {
+				return true
+			}
+			v, ok := x.pkg.TypesInfo.Uses[id].(*types.Var)
+			if !ok || v.IsField() || v.Pkg() != x.pkg.Types || v.Parent() == x.pkg.Types.Scope() {
+				return true
+			}
+			if v.Pos() >= lit.Pos() && v.Pos() <= lit.End() {
+				return true // declared inside the literal
+			}
+			if !simpleType(v.Type()) || isShimType(v.Type()) {
+				return true
+			}
+			x.captured[v] = true
+			return true
+		})
+		return true
+	})
+}
+
+// keepReassigned restricts the captured set to variables that are assigned again after their declaration
+// (a variable that is only defined once is written before any goroutine that captures it is started).
+func (x *xf) keepReassigned(d ast.Decl) {
+	re := map[*types.Var]bool{}
+	mark := func(e ast.Expr) {
+		for {
+			if p, ok := e.(*ast.ParenExpr); ok {
+				e = p.X
+				continue
+			}
+			break
+		}
+		if id, ok := e.(*ast.Ident); ok {
+			if v, ok := x.pkg.TypesInfo.Uses[id].(*types.Var); ok {
+				re[v] = true
+			}
+		}
+	}
+	ast.Inspect(d, func(n ast.Node) bool {
+		switch t := n.(type) {
+		case *ast.AssignStmt:
+			for _, l := range t.Lhs {
+				mark(l) // Uses is only set for idents that are not being defined
+			}
+		case *ast.IncDecStmt:
+			mark(t.X)
+		case *ast.RangeStmt:
+			if t.Tok == token.ASSIGN {
+				if t.Key != nil {
+					mark(t.Key)
+				}
+				if t.Value != nil {
+					mark(t.Value)
+				}
+			}
+		}
+		return true
+	})
+	for v := range x.captured {
+		if !re[v] {
+			delete(x.captured, v)
+		}
+	}
+}
+
+// simpleType: values whose copy through vrt.Rd is harmless and that never need to stay addressable.
+func simpleType(t types.Type) bool {
+	switch t.Underlying().(type) {
+	case *types.Basic, *types.Pointer, *types.Interface, *types.Slice, *types.Map, *types.Chan, *types.Signature:
+		return true
+	}
+	return false
+}
+
+func (x *xf) capturedIdent(e ast.Expr) *ast.Ident {
+	for {
+		if p, ok := e.(*ast.ParenExpr); ok {
+			e = p.X
+			continue
+		}
+		break
+	}
+	id, ok := e.(*ast.Ident)
+	if !ok {
+		return nil
+	}
+	if v, ok := x.pkg.TypesInfo.Uses[id].(*types.Var); ok && x.captured[v] {
+		return id
+	}
+	return nil
+}
+
+func (x *xf) localLoc(id *ast.Ident) string { return "local " + x.curFn + "." + id.Name }
 
 func isShimType(t types.Type) bool {
 	for {
@@ -312,6 +439,10 @@ func (x *xf) wStmt(se *ast.SelectorExpr) ast.Stmt {
 	return &ast.ExprStmt{X: &ast.CallExpr{Fun: &ast.SelectorExpr{X: ast.NewIdent("vrt"), Sel: ast.NewIdent("W")}, Args: []ast.Expr{&ast.UnaryExpr{Op: token.AND, X: se}, x.site(x.loc(se))}}}
 }
 
+func (x *xf) wIdent(id *ast.Ident) ast.Stmt {
+	return &ast.ExprStmt{X: &ast.CallExpr{Fun: &ast.SelectorExpr{X: ast.NewIdent("vrt"), Sel: ast.NewIdent("W")}, Args: []ast.Expr{&ast.UnaryExpr{Op: token.AND, X: ast.NewIdent(id.Name)}, x.site(x.localLoc(id))}}}
+}
+
 // written returns the tracked field selector that expression e (an assignment target) writes, if any.
 func (x *xf) written(e ast.Expr) *ast.SelectorExpr {
 	for {
@@ -372,6 +503,7 @@ func (x *xf) starWrites(e ast.Expr) []ast.Stmt {
 }
 
 var skip = map[ast.Node]bool{}
+var goVersion string
 
 func markSkip(e ast.Expr) {
 	for {
@@ -403,6 +535,16 @@ func (x *xf) pre(c *astutil.Cursor) bool {
 		if x.isChan(n.X) {
 			rangeOverChan[n] = true
 		}
+		if n.Key != nil {
+			if id := x.capturedIdent(n.Key); id != nil {
+				skip[id] = true
+			}
+		}
+		if n.Value != nil {
+			if id := x.capturedIdent(n.Value); id != nil {
+				skip[id] = true
+			}
+		}
 	case *ast.CommClause:
 		// the communication of a select case stays native (the select itself is handled as a whole)
 		if n.Comm != nil {
@@ -419,10 +561,16 @@ func (x *xf) pre(c *astutil.Cursor) bool {
 			if se := x.written(l); se != nil {
 				markSkip(l)
 			}
+			if id := x.capturedIdent(l); id != nil {
+				skip[id] = true
+			}
 		}
 	case *ast.IncDecStmt:
 		if se := x.written(n.X); se != nil {
 			markSkip(n.X)
+		}
+		if id := x.capturedIdent(n.X); id != nil {
+			skip[id] = true
 		}
 	case *ast.UnaryExpr:
 		if n.Op == token.AND {
@@ -494,6 +642,30 @@ func vrtCall(name string, args ...ast.Expr) *ast.CallExpr {
 
 func (x *xf) post(c *astutil.Cursor) bool {
 	switch n := c.Node().(type) {
+	case *ast.Ident:
+		if skip[n] {
+			return true
+		}
+		v, ok := x.pkg.TypesInfo.Uses[n].(*types.Var)
+		if !ok || !x.captured[v] {
+			return true
+		}
+		switch par := c.Parent().(type) {
+		case *ast.SelectorExpr:
+			if par.Sel == n {
+				return true
+			}
+		case *ast.KeyValueExpr:
+			if par.Key == n {
+				if _, isField := x.pkg.TypesInfo.Uses[n].(*types.Var); isField && v.IsField() {
+					return true
+				}
+			}
+		}
+		x.nRd++
+		x.needRT = true
+		c.Replace(&ast.CallExpr{Fun: &ast.SelectorExpr{X: ast.NewIdent("vrt"), Sel: ast.NewIdent("Rd")}, Args: []ast.Expr{&ast.UnaryExpr{Op: token.AND, X: ast.NewIdent(n.Name)}, x.site(x.localLoc(n))}})
+		return true
 	case *ast.SelectorExpr:
 		// 1. re-binding of package-level identifiers
 		if id, ok := n.X.(*ast.Ident); ok {
@@ -524,6 +696,9 @@ func (x *xf) post(c *astutil.Cursor) bool {
 				ws = append(ws, x.wStmt(se))
 			}
 			ws = append(ws, x.starWrites(l)...)
+			if id := x.capturedIdent(l); id != nil && n.Tok != token.DEFINE {
+				ws = append(ws, x.wIdent(id))
+			}
 		}
 		if len(ws) > 0 {
 			if inBlock(c) {
@@ -539,6 +714,11 @@ func (x *xf) post(c *astutil.Cursor) bool {
 	case *ast.IncDecStmt:
 		if se := x.written(n.X); se != nil && inBlock(c) {
 			c.InsertAfter(x.wStmt(se))
+			x.nW++
+			x.needRT = true
+		}
+		if id := x.capturedIdent(n.X); id != nil && inBlock(c) {
+			c.InsertAfter(x.wIdent(id))
 			x.nW++
 			x.needRT = true
 		}
